@@ -305,7 +305,9 @@ fn check_env_cleanup(ctx: &Ctx, judgements: &[DocJudgement], out: &mut Vec<Viola
         }
     };
     let mut cwd_of_doc: BTreeMap<usize, String> = BTreeMap::new();
-    for (d, j) in obs.docs.iter().zip(judgements.iter()) {
+    // (`scrut create` has no document: only the clean-up half applies to it)
+    let no_docs = sc.cli.command.as_deref() == Some("create");
+    for (d, j) in obs.docs.iter().zip(judgements.iter()).filter(|_| !no_docs) {
         let main = &sc.docs[d.doc];
         let script = main.format == Format::Cram || sc.cli.cram_compat;
         let list = exec_list(sc, main);
